@@ -36,7 +36,7 @@ BOGUS = ["bogus", "", "Trapezoid", "rect", "nearest", "LINEAR", "quadratic", Non
 
 
 def plan(tier, seed):
-    n = 4000 if tier == "quick" else 150000
+    n = 12000 if tier == "quick" else 750000
     k = n // 2
     return [{"kind": "random", "start": p * (n // NSHARDS), "count": n // NSHARDS} for p in range(NSHARDS)] + \
         [{"kind": "fuzz", "start": p * (k // NSHARDS), "count": k // NSHARDS} for p in range(NSHARDS)]
